@@ -362,7 +362,7 @@ func (w *World) NewPod(s PodSpec) *v1.Pod {
 				return v1.NodeSelectorTerm{MatchExpressions: []v1.NodeSelectorRequirement{{Key: o.LabelKey, Operator: v1.NodeSelectorOpIn, Values: vals}}}
 			}
 			p.Spec.Affinity = &v1.Affinity{NodeAffinity: &v1.NodeAffinity{RequiredDuringSchedulingIgnoredDuringExecution: &v1.NodeSelector{
-				NodeSelectorTerms: []v1.NodeSelectorTerm{in("zzz-"+o.LabelValue), in("zzz", o.LabelValue)}}}}
+				NodeSelectorTerms: []v1.NodeSelectorTerm{in("zzz-" + o.LabelValue), in("zzz", o.LabelValue)}}}}
 		case "affinityAnd": // several expressions in one term; the one naming this group's value is the last
 			p.Spec.Affinity = &v1.Affinity{NodeAffinity: &v1.NodeAffinity{RequiredDuringSchedulingIgnoredDuringExecution: &v1.NodeSelector{
 				NodeSelectorTerms: []v1.NodeSelectorTerm{{MatchExpressions: []v1.NodeSelectorRequirement{
@@ -383,7 +383,7 @@ func (w *World) NewPod(s PodSpec) *v1.Pod {
 		p.Spec.Tolerations = []v1.Toleration{{Key: ref.TaintKey, Operator: v1.TolerationOpExists, Effect: v1.TaintEffectNoSchedule},
 			{Key: "node.kubernetes.io/not-ready", Operator: v1.TolerationOpExists, Effect: v1.TaintEffectNoExecute}}
 	}
-	if s.EmptyAffinity && p.Spec.Affinity == nil {
+	if s.EmptyAffinity && p.Spec.Affinity == nil { // also on pods that name a group by nodeSelector
 		p.Spec.Affinity = &v1.Affinity{}
 	}
 	if s.Cross != "" {
@@ -401,7 +401,13 @@ func (w *World) NewPod(s PodSpec) *v1.Pod {
 				r = v1.NodeSelectorRequirement{Key: oo.LabelKey, Operator: v1.NodeSelectorOpExists}
 			}
 			if p.Spec.Affinity == nil {
-				p.Spec.Affinity = &v1.Affinity{NodeAffinity: &v1.NodeAffinity{RequiredDuringSchedulingIgnoredDuringExecution: &v1.NodeSelector{}}}
+				p.Spec.Affinity = &v1.Affinity{}
+			}
+			if p.Spec.Affinity.NodeAffinity == nil {
+				p.Spec.Affinity.NodeAffinity = &v1.NodeAffinity{}
+			}
+			if p.Spec.Affinity.NodeAffinity.RequiredDuringSchedulingIgnoredDuringExecution == nil {
+				p.Spec.Affinity.NodeAffinity.RequiredDuringSchedulingIgnoredDuringExecution = &v1.NodeSelector{}
 			}
 			req := p.Spec.Affinity.NodeAffinity.RequiredDuringSchedulingIgnoredDuringExecution
 			if len(req.NodeSelectorTerms) == 0 {
